@@ -149,6 +149,13 @@ func verifC09_Inherit() {
 	}
 	ns := vSpec(nl)
 	verifAssume(ns.URLs[0].URL.Exact == exact && ns.URLs[1].URL.Prefix == old.spec.URLs[1].URL.Prefix)
+	// a rule that gets its policy through defaultPolicyRef also changes policy when the
+	// default is pointed at another (itself unchanged) policy
+	if vRule0ViaDefault && !changed && verifBool("defaultPolicyRefSwitched") {
+		ns.DefaultPolicyRef = "loose"
+		changed = true
+		verifCover("default-policy-switched")
+	}
 	// the unchanged rule may sit at another position in the new spec (a rule was added in front)
 	k := 0
 	if verifBool("ruleInsertedInFront") {
